@@ -226,10 +226,20 @@ def check(ck):
         if n.kind == "branch" and n.polarity and ("_max_threads" in dump(n.test) or "is_set" in dump(n.test)):
             decisions.append((fst, n, "start guard"))
     g = cfg_of(frun)
-    retire = [n for n in g.live_nodes() if n.kind == "branch" and n.polarity and ("_min_threads" in dump(n.test) or "qsize" in dump(n.test))]
+    dr_ = dominators(g)
+    loop_ast = [w for w in ast.walk(frun.node) if isinstance(w, ast.While)]
+    ret_nodes = [n for n in g.live_nodes() if n.kind == "return" and n.ast is not None and loop_ast and
+                 any(sub is n.ast for sub in ast.walk(loop_ast[0])) and
+                 not any(g.nodes[i].kind == "branch" and g.nodes[i].polarity and dump(g.nodes[i].test) == "task is self._done_event" for i in dr_[n.id])]
+    retire = []
+    for rn in ret_nodes:
+        for i in dr_[rn.id]:
+            b = g.nodes[i]
+            if b.kind == "branch" and b.stmt is not None and not isinstance(b.stmt, ast.While) and b not in retire:
+                retire.append(b)
     for n in retire:
         decisions.append((frun, n, "retirement test"))
-    if len(decisions) < 5:
+    if len(decisions) < 4:
         raise AnalysisError("anchor vanished: worker creation/retirement decisions (found %d)" % len(decisions))
     reported = set()
     for (fi, bn, what) in decisions:
@@ -346,6 +356,37 @@ def check(ck):
                    "drifts (%s)" % (kind, cnt, "more workers than max_threads can be started" if cnt > 1 else "the pool believes a dead worker is alive and stops growing"),
                    q.loc(frun, last) if last is not None else "", ex.describe_path(st))
     ck.floor("C10.7", 4)
+    # pending-task counter: +1 per queued task, -1 per executed task (pairing)
+    for fi in ci.methods.values():
+        if fi.name == "__init__":
+            continue
+        gg = cfg_of(fi)
+        for n in gg.live_nodes():
+            if n.kind == "stmt" and isinstance(n.ast, ast.AugAssign) and dump(n.ast.target) == "self.__nb_pending_task":
+                if isinstance(n.ast.op, ast.Sub):
+                    tries = [t for t in ast.walk(fi.node) if isinstance(t, ast.Try) and any(sub is n.ast for st_ in t.finalbody for sub in ast.walk(st_))]
+                    okk = any(isinstance(c, ast.Call) and call_name(c) == "execute" for t in tries for st_ in t.body for c in ast.walk(st_))
+                    ck.require(okk, "C10.7b", "%s: `%s`" % (q.fn(fi), q.stmt_text(n)), "one decrement per executed task (finally of the try around execute)",
+                               "the pending-task counter is decremented for something that was not an executed task (e.g. drained items, "
+                               "which include uncounted stop sentinels): the counter can become negative and the pool stops growing",
+                               q.loc(fi, n))
+                elif isinstance(n.ast.op, ast.Add):
+                    dd_ = dominators(gg)
+                    puts_ = [m for m in gg.live_nodes() for c in node_calls(m) if dump(c.func) == "self._queue.put" and m.id in dd_[n.id]]
+                    in_start = fi.name == "start"
+                    ck.require(bool(puts_) or in_start, "C10.7b", "%s: `%s`" % (q.fn(fi), q.stmt_text(n)), "one increment per queued task",
+                               "the pending-task counter is incremented without a task having been queued", q.loc(fi, n))
+            elif n.kind == "stmt" and isinstance(n.ast, ast.Assign) and any(dump(t) == "self.__nb_pending_task" for t in n.ast.targets):
+                ck.bad("C10.7b", "%s: `%s`" % (q.fn(fi), q.stmt_text(n)), "the pending-task counter is overwritten instead of counted "
+                       "(+1 per queued task, -1 per executed task)", q.loc(fi, n))
+    # the retirement decision and its accounting belong to one critical section
+    for w in [w for w in ast.walk(frun.node) if isinstance(w, ast.If) and "_min_threads" in dump(w.test)]:
+        has_dec = any(isinstance(x, ast.AugAssign) and dump(x.target) == "self.__nb_threads" and isinstance(x.op, ast.Sub) for st_ in w.body for x in ast.walk(st_))
+        has_ret = any(isinstance(x, ast.Return) for st_ in w.body for x in ast.walk(st_))
+        ck.require(has_dec and has_ret, "C10.7b", "%s: retirement decision and counter update in one critical section" % q.fn(frun),
+                   "`nb_threads -= 1` in the branch that decides to retire",
+                   "the worker that decides to retire does not decrement the thread counter in the critical section of that decision: a second "
+                   "worker can take the same decision on the stale count and both retire (fewer than min_threads workers remain)", q.loc(frun, w))
     # the retirement return is guarded by threads > min
     rets = [n for n in g.live_nodes() if n.kind == "return" and any(g.nodes[i].kind == "branch" and "_min_threads" in dump(g.nodes[i].test) for i in d[n.id])]
     ck.require(len(rets) == 1, "C10.7", "%s: one idle retirement" % q.fn(frun), "single guarded return", "found %d idle-retirement returns" % len(rets), q.loc(frun, frun.node))
